@@ -8,6 +8,7 @@ package sched
 
 import (
 	"fmt"
+	"runtime"
 	"sync"
 	"sync/atomic"
 	"time"
@@ -21,16 +22,22 @@ var StallTimeout = 45 * time.Second
 
 // Stall is the panic value of Run when the code under test blocks outside the scheduler's control.
 type Stall struct {
-	Thread int
-	Last   Event
-	Events int
+	Thread  int
+	Last    Event
+	Events  int
+	Foreign string // set when a goroutine that is no scheduler thread (started by the code under test) reached a hooked blocking operation
 }
 
 func (st Stall) Error() string {
+	if st.Foreign != "" {
+		return fmt.Sprintf("a goroutine started by the code under test reached a hooked blocking operation (%s) after %d events: the scheduler does not own that goroutine", st.Foreign, st.Events)
+	}
 	return fmt.Sprintf("no scheduling point reached for %v: thread %d blocks outside the scheduler's control after %d events (its last announced operation: %s %s)", StallTimeout, st.Thread, st.Events, st.Last.Kind, st.Last.Obj)
 }
 
 var poisoned atomic.Bool
+
+func init() { ownCheck.Store(true) }
 
 // Poisoned reports whether an earlier execution in this process stalled.
 func Poisoned() bool { return poisoned.Load() }
@@ -54,6 +61,7 @@ type thread struct {
 	id       int
 	name     string
 	wake     chan struct{}
+	goid     int64
 	pred     func() bool // enabled predicate of the pending operation
 	pending  Event
 	finished bool
@@ -81,6 +89,48 @@ type Scheduler struct {
 	Diverged            string
 	maxEvents           int
 	progress            atomic.Int64
+	foreign             atomic.Value // string
+	foreignCh           chan struct{}
+	checkOwn            bool
+}
+
+// ownCheck decides whether the next scheduler asks blocking hooks for goroutine identity (it costs ~3 us per hook): the
+// explorer switches it on for the first two executions of every exploration and every 32nd after that - a goroutine the
+// code under test starts on its own shows in the canonical execution of a scenario already.
+var ownCheck atomic.Bool
+
+// goid returns the id of the calling goroutine (parsed from its stack header; ~3 us, so only blocking hooks ask).
+func goid() int64 {
+	var b [40]byte
+	n := runtime.Stack(b[:], false)
+	var id int64
+	for _, c := range b[len("goroutine "):n] {
+		if c < '0' || c > '9' {
+			break
+		}
+		id = id*10 + int64(c-'0')
+	}
+	return id
+}
+
+// Own reports whether the caller is the goroutine of the thread that holds the baton.
+func (s *Scheduler) Own() bool {
+	if !s.checkOwn {
+		return true
+	}
+	id := s.running
+	return id < 0 || id >= len(s.threads) || s.threads[id].goid == goid()
+}
+
+// Foreign is called by a blocking hook that finds itself on a goroutine the scheduler does not own (the code under test
+// started it). The execution cannot be driven; the goroutine is parked for good and Run ends with a Stall.
+func (s *Scheduler) Foreign(what string) {
+	s.foreign.CompareAndSwap(nil, what)
+	select {
+	case s.foreignCh <- struct{}{}:
+	default:
+	}
+	select {}
 }
 
 type sentinel struct{}
@@ -102,7 +152,7 @@ func New(prefix []int) *Scheduler {
 	if poisoned.Load() {
 		panic("sched: New after a stalled execution (goroutines of that execution are still around)")
 	}
-	return &Scheduler{prefix: prefix, running: -1, doneCh: make(chan struct{}), maxEvents: 200000}
+	return &Scheduler{prefix: prefix, running: -1, doneCh: make(chan struct{}), foreignCh: make(chan struct{}, 1), maxEvents: 200000, checkOwn: ownCheck.Load()}
 }
 
 // Current returns the id of the running thread (-1 outside threads).
@@ -122,6 +172,7 @@ func (s *Scheduler) addThread(body func(), name string) *thread {
 	t.pending = Event{t.id, "start", name}
 	s.threads = append(s.threads, t)
 	go func() {
+		t.goid = goid()
 		<-t.wake
 		defer func() {
 			if r := recover(); r != nil {
@@ -181,10 +232,23 @@ func (s *Scheduler) awaitDone() {
 	tick := time.NewTicker(StallTimeout / 8)
 	defer tick.Stop()
 	last, since := s.progress.Load(), time.Now()
+	foreignStall := func() {
+		poisoned.Store(true)
+		curMu.Lock()
+		cur = nil
+		curMu.Unlock()
+		what, _ := s.foreign.Load().(string)
+		panic(Stall{Thread: s.running, Events: len(s.Trace), Foreign: what})
+	}
 	for {
 		select {
 		case <-s.doneCh:
+			if s.foreign.Load() != nil {
+				foreignStall()
+			}
 			return
+		case <-s.foreignCh:
+			foreignStall()
 		case <-tick.C:
 			if p := s.progress.Load(); p != last {
 				last, since = p, time.Now()
@@ -362,6 +426,7 @@ func ExploreDev(bound, devBound int, run func(prefix []int) *Scheduler, visit fu
 			complete = false
 			return false
 		}
+		ownCheck.Store(execs < 2 || execs%32 == 0)
 		s := run(prefix)
 		execs++
 		if s.Diverged != "" {
@@ -394,5 +459,6 @@ func ExploreDev(bound, devBound int, run func(prefix []int) *Scheduler, visit fu
 		return true
 	}
 	rec(nil)
+	ownCheck.Store(true)
 	return
 }
